@@ -173,6 +173,21 @@ def facts(src=None):
                         v.args[1].value.id == "ctrl_variables_net" and v.args[1].slice.value == key:
                     ok = True
         F.append(("multinet.ctrl.%s_default_from_net_type" % key, "yes" if ok else "no"))
+    # _relevant_nets: every net named by a multinet controller of the level is recalculated
+    g = func(t, "_relevant_nets", rel)
+    shape = "other"
+    for n in ast.walk(g):
+        if isinstance(n, ast.Assign) and len(n.targets) == 1 and isinstance(n.targets[0], ast.Name) and \
+                isinstance(n.value, ast.ListComp):
+            e = n.value.elt
+            if isinstance(e, ast.Call) and isinstance(e.func, ast.Attribute) and e.func.attr == "get_all_net_names" \
+                    and not e.args and len(n.value.generators) == 1 and not n.value.generators[0].ifs:
+                lst = n.targets[0].id
+                used = [m for m in ast.walk(g) if isinstance(m, ast.Compare) and len(m.ops) == 1 and
+                        isinstance(m.ops[0], ast.In) and isinstance(m.comparators[0], ast.Name) and
+                        m.comparators[0].id == lst]
+                shape = "all-nets-named-by-the-controllers" if used else "list-not-used"
+    F.append(("multinet.ctrl.relevant_nets", shape))
     g = func(t, "prepare_run_ctrl", rel)
     F.append(("multinet.ctrl.errors", ",".join(names_of_tuple(subscript_assign(g, "ctrl_variables", "errors"), imp))))
     # ---- multinet/timeseries/run_time_series_multinet.py
